@@ -7,7 +7,11 @@ from sympy import Eq, Rel, sympify, expand
 from sympy import symbols, simplify, Expr, Add, Mul, Pow, Symbol, Float
 from sympy.core.numbers import Zero, NegativeOne, One, Integer, Rational, Half
 from sympy.logic.boolalg import BooleanTrue
-from sympy.parsing.sympy_parser import parse_expr
+from sympy.parsing.sympy_parser import (
+    parse_expr,
+    standard_transformations,
+    rationalize,
+)
 
 SYMPY_OP_TO_PDDL_OP = {
     Add: "+",
@@ -24,6 +28,7 @@ SYMPY_OP_TO_PDDL_OP = {
 }
 
 DEFAULT_DECIMAL_DIGITS = os.environ.get("NUMERIC_PRECISION", 4)
+RATIONAL_TRANSFORMATIONS = standard_transformations + (rationalize,)
 
 
 def is_number_string(s):
@@ -265,8 +270,14 @@ def simplify_equality(
     transformed_right_expr, symbolic_vars = transform_expression(
         right_expr, symbolic_vars
     )
-    transformed_left_expr = parse_expr(transformed_left_expr, evaluate=False)
-    transformed_right_expr = parse_expr(transformed_right_expr, evaluate=False)
+    # the equation is simplified with exact (rational) constants: with floats 0.1 * x + 0.2 * x = 0.3 * x is not an
+    # identity (0.1 + 0.2 is 0.30000000000000004) and was "simplified" to x = 0.
+    transformed_left_expr = parse_expr(
+        transformed_left_expr, transformations=RATIONAL_TRANSFORMATIONS, evaluate=False
+    )
+    transformed_right_expr = parse_expr(
+        transformed_right_expr, transformations=RATIONAL_TRANSFORMATIONS, evaluate=False
+    )
     equation = Eq(transformed_left_expr, transformed_right_expr)
     simplified_equation = simplify(equation)
 
